@@ -280,6 +280,7 @@ pub fn main(args: &util::Args) {
                 vec_generics: true,
                 overlapping_impls: true,
                 result_only_generics: true,
+                cov_shapes: i % 4 == 1,
                 ..Default::default()
             }
         } else { crate::progen::Cfg {
@@ -294,17 +295,19 @@ pub fn main(args: &util::Args) {
             lit_field_effects: i % 20 == 7,
             nested_patterns: i % 4 == 1,
             logic_rhs_shapes: i % 5 == 2,
+            cov_shapes: i % 6 == 4,
             ..Default::default()
         } };
         let (src, feats) = crate::progen::gen_program(&mut rng, cfg);
         let id = format!(
-            "gen:{}:{}{}{}{}{}",
+            "gen:{}:{}{}{}{}{}{}",
             args.seed,
             i,
             if rich { ":rg" } else { "" },
             if cfg.closure_flows { ":cf" } else { "" },
             if cfg.wildcard_arrays { ":wa" } else { "" },
-            if cfg.lit_field_effects { ":lfe" } else { "" }
+            if cfg.lit_field_effects { ":lfe" } else { "" },
+            if cfg.cov_shapes { ":cov" } else { "" }
         );
         match util::compile_text(&dir, &src) {
             Outcome::Ok(c) => {
